@@ -103,8 +103,8 @@ func StartProxy(cfg *Config, seeds []string) (*Host, error) {
 			server.WithDisableRedisSlave(cfg.DisableSlave),
 		)
 		var extra []core.Option
-		if cfg.SmallBuf {
-			extra = append(extra, core.WithSocketSendBuffer(8192), core.WithSocketRecvBuffer(8192))
+		if cfg.BufSize() > 0 {
+			extra = append(extra, core.WithSocketSendBuffer(cfg.BufSize()), core.WithSocketRecvBuffer(cfg.BufSize()))
 		}
 		err := core.Run(srv, "tcp://"+h.Addr, append(extra,
 			core.WithRedisServers(strings.Join(seeds, ",")),
